@@ -75,6 +75,7 @@ type Scn struct {
 	CertUnsorted bool            `json:"cert_unsorted,omitempty"` // c10: the certificate constraint lists several values in non-sorted order
 	LineNorm   bool              `json:"line_norm,omitempty"`   // verification (and the recording functionaries) normalise line endings
 	BigFile    int               `json:"big_file,omitempty"`    // size of an additional source file src/big.bin (generated, not stored)
+	RelPaths   bool              `json:"rel_paths,omitempty"`  // c10: link and run directory are handed over as RELATIVE paths (histories through InTotoVerifyWithDirectory)
 	Env        map[string]string `json:"env,omitempty"`        // environment the scenario ran under (time zone), for the replay
 	ExpectSummary string         `json:"expect_summary,omitempty"` // filled by materialise: the summary link an accepted verification must return
 	Seed       uint64            `json:"seed"`
@@ -190,6 +191,9 @@ func buildLayout(sc *Scn, runDirPrefix string) intoto.Layout {
 			s.ExpectedProducts = append(s.ExpectedProducts, []string{"DELETE", markerize("src/b.c", sc.Params)})
 		}
 		s.ExpectedProducts = append(s.ExpectedProducts, []string{"MATCH", "*", "WITH", "MATERIALS", "FROM", st.Name}, []string{"DISALLOW", "*"})
+		if sc.Defect == "history-empty-command-argument" {
+			s.ExpectedCommand = []string{"build", "", st.Name, ""}
+		}
 		if sc.Defect == "history-whitespace-rule" {
 			s.ExpectedMaterials = append([][]string{{"ALLOW", "release notes "}, {"DISALLOW", " draft\t"}}, s.ExpectedMaterials...)
 			s.ExpectedProducts = append([][]string{{"ALLOW", "  spaced out  "}}, s.ExpectedProducts...)
@@ -201,6 +205,9 @@ func buildLayout(sc *Scn, runDirPrefix string) intoto.Layout {
 				up += "/"
 			}
 			s.ExpectedMaterials = append([][]string{{"DISALLOW", "STAMP.TXT"}, {"DISALLOW", up + "STAMP.TXT"}, {"disallow", "Stamp.Txt"}}, s.ExpectedMaterials...)
+		}
+		if sc.Defect == "step-rule-fails-no-inspection-may-run" && i == 0 {
+			s.ExpectedProducts = [][]string{{"DISALLOW", "*"}}
 		}
 		if sc.Permissive {
 			s.ExpectedMaterials = [][]string{{"ALLOW", "*"}}
@@ -289,6 +296,9 @@ func inspCommand(in InspSpec) []string {
 	case "rewrite":
 		// same size, same mtime, other content
 		return []string{"sh", "-c", "echo '" + in.Name + "' >> " + logPath + "; printf BBBB > " + in.Arg + " && touch -d @1577836800 " + in.Arg}
+	case "gate":
+		// passes only when the parameter MODE is substituted by "release"
+		return []string{"sh", "-c", "echo '" + in.Name + "' >> " + logPath + "; test {MODE} = release"}
 	case "missing":
 		return []string{"/nonexistent/verif-no-such-binary", in.Name}
 	case "empty":
@@ -380,7 +390,12 @@ func writeChain(sc *Scn, dir string, start map[string]string, r *lib.Rng) built 
 				subDir := filepath.Join(dir, fmt.Sprintf(intoto.SublayoutLinkDirFormat, st.Name, kp.Pub.KeyID))
 				sl := buildSubLayout(sub)
 				// the sublayout's chain starts at mats and ends in exactly prods
+				outer := curAlg
+				if sub.HashAlg != "" {
+					curAlg = sub.HashAlg
+				}
 				writeChainTo(sub, subDir, mats, prods, r)
+				curAlg = outer
 				m := wrap(sub, sl)
 				for _, o := range sub.Owners {
 					mustSign(m, pk(o).Priv)
@@ -564,10 +579,10 @@ var defects = map[string][]string{
 		"threshold1-disagree-large-link", "permissive-threshold1-foreign-signature-entry-0", "permissive-threshold1-foreign-signature-entry-1",
 		"permissive-three-links-one-disagrees-0", "permissive-three-links-one-disagrees-1", "permissive-three-links-one-disagrees-2"},
 	"c06": {"sub-expired", "sub-undated", "sub-rfc3339-offset", "none", "expired-long", "expired-2s", "future-1h", "garbage", "empty", "rfc3339-offset", "date-only", "year-9999", "fraction", "lowercase"},
-	"c08": {"sub-wide-9", "sub-defective-beside-good-link-large", "sub-insp-named-like-first-step", "sub-insp-named-like-last-step", "sub-defective-beside-good-link", "sub-ok", "sub-ok", "sub-badsig", "sub-expired", "sub-missing-link", "sub-rule-violation", "sub-unauthorised", "sub-nested", "sub-nested-defect", "sub-summary-mismatch"},
+	"c08": {"sub-same-step-name-upper-link-missing", "sub-same-step-name-both-present", "sub-wide-9", "sub-defective-beside-good-link-large", "sub-insp-named-like-first-step", "sub-insp-named-like-last-step", "sub-defective-beside-good-link", "sub-ok", "sub-ok", "sub-badsig", "sub-expired", "sub-missing-link", "sub-rule-violation", "sub-unauthorised", "sub-nested", "sub-nested-defect", "sub-summary-mismatch", "sub-summary-mismatch-other-algorithm"},
 	"c10": {"history-same-params", "history-diff-params", "history-no-params", "history-mixed", "mixed-cert-key", "mixed-cert-key", "mixed-cert-key-unsorted", "summary-byproducts", "direct-unclean",
-		"history-multi-alg", "history-multi-alg-mismatch", "history-whitespace-rule", "history-param-value-has-marker", "mixed-cert-key-marker-constraint", "history-threshold-zero"},
-	"c09": {"product-crlf-rewritten", "product-crlf-rewritten-normalised", "large-product-tampered-tail", "large-product-untouched", "product-added-ignorable-name-0", "product-added-ignorable-name-1", "product-added-ignorable-name-2", "product-added-ignorable-name-3",
+		"history-empty-command-argument", "history-dir-relative-inspection-fails-midway", "history-multi-alg", "history-multi-alg-mismatch", "history-whitespace-rule", "history-param-value-has-marker", "mixed-cert-key-marker-constraint", "history-threshold-zero"},
+	"c09": {"step-rule-fails-no-inspection-may-run", "symlinked-dir-before-tampered-product", "symlinked-dir-untouched", "product-crlf-rewritten", "product-crlf-rewritten-normalised", "large-product-tampered-tail", "large-product-untouched", "product-added-ignorable-name-0", "product-added-ignorable-name-1", "product-added-ignorable-name-2", "product-added-ignorable-name-3",
 		"product-added-ignorable-name-4", "product-added-ignorable-name-5", "product-added-ignorable-name-6", "product-added-ignorable-name-7",
 		"product-added-ignorable-name-8", "product-added-ignorable-name-9", "product-added-ignorable-name-10", "case-variant-rule-earlier", "product-modified-backslash-decoy", "sha512-chain-product-modified", "escaped-pattern-product-modified", "escaped-pattern-none", "insp-rewrite-same-mtime", "product-all-removed", "require-after-consume", "none", "insp-fail", "insp-fail-255", "insp-missing", "insp-empty", "product-modified", "product-added", "product-removed",
 		"insp-touch-allowed", "insp-touch-disallowed", "three-inspections", "second-fails"},
@@ -842,6 +857,25 @@ func genScenario(r *lib.Rng, focus string, idx int) *Scn {
 				}
 				sc.Steps = append(sc.Steps, StepSpec{Name: fmt.Sprintf("wide%d", k), Keys: []string{key}, Threshold: 1, Signers: []string{key}, Op: "create", Sub: sub, SubSigner: key})
 			}
+		case "sub-same-step-name-upper-link-missing", "sub-same-step-name-both-present":
+			// a step name occurs at two levels, carried out by the same functionary: the parent's step "pkg" and a step "pkg"
+			// inside the sublayout delivered for the parent's step "zz-delegated".  Evidence for a step is looked up in the
+			// link directory of ITS layout only: a missing upper link is not replaced by the nested one, and an upper link
+			// is not overridden by the nested one (rules are permissive: only thresholds and the summary can tell)
+			key, other := pool[0], pool[1]
+			sub := baseScenario(r, focus, 1)
+			sub.Insps, sub.Params, sub.Entry = nil, nil, "plain"
+			sub.Owners = []string{other}
+			sub.Steps = []StepSpec{{Name: "pkg", Keys: []string{key}, Threshold: 1, Signers: []string{key}, Op: "create"}}
+			sc.Steps = []StepSpec{
+				{Name: "zz-delegated", Keys: []string{other}, Threshold: 1, Signers: []string{other}, Op: "create", Sub: sub, SubSigner: other},
+				{Name: "pkg", Keys: []string{key}, Threshold: 1, Signers: []string{key}, Op: "modify"},
+			}
+			sc.Insps, sc.ExpectLog, sc.Params = nil, nil, nil
+			sc.Permissive, sc.InspPermissive = true, true
+			if d == "sub-same-step-name-upper-link-missing" {
+				sc.Expect = "reject"
+			}
 		case "sub-defective-beside-good-link-large":
 			// like sub-defective-beside-good-link, and the expired sublayout is a big file (17 MiB of white space inside the JSON document)
 			for len(st.Keys) < 2 {
@@ -925,10 +959,18 @@ func genScenario(r *lib.Rng, focus string, idx int) *Scn {
 		case "sub-expired":
 			sub.Expires = "2001-01-01T00:00:00Z"
 			sc.Expect = "reject"
+		case "sub-summary-mismatch-other-algorithm":
+			// like sub-summary-mismatch, and the sublayout's functionaries recorded sha512 digests only while the parent's
+			// links (and inspections) carry sha256: artifacts without a common digest are never "the same artifact"
+			sub.HashAlg = "sha512"
+			sc.Expect = "reject"
+			if len(sc.Insps) == 0 {
+				sc.Insps = []InspSpec{{Name: "insp0", Kind: "log"}}
+			}
 		default:
 			sc.Expect = "reject"
 		}
-		if sc.Expect == "reject" && d != "sub-defective-beside-good-link" && d != "sub-defective-beside-good-link-large" {
+		if sc.Expect == "reject" && d != "sub-defective-beside-good-link" && d != "sub-defective-beside-good-link-large" && d != "sub-same-step-name-upper-link-missing" {
 			// the sublayout is the only evidence for that step unless threshold is met otherwise: force it to be needed
 			st.Threshold = len(st.Signers)
 		}
@@ -979,6 +1021,23 @@ func genScenario(r *lib.Rng, focus string, idx int) *Scn {
 			sc.History = []map[string]string{ps, ps}
 			sc.Reps = 24
 			sc.Insps, sc.ExpectLog = nil, nil
+		case "history-empty-command-argument":
+			// the expected command of every step carries empty arguments (legal): comparing it with the recorded command
+			// must not rewrite the caller's layout
+			sc.Params = nil
+			sc.History = []map[string]string{nil, nil, nil}
+		case "history-dir-relative-inspection-fails-midway":
+			// verification with a run directory; link and run directory are RELATIVE paths.  An inspection passes only for
+			// MODE=release: the verification in the middle of the history fails AT the inspection, and the one after it has
+			// the inputs of the first one and must give its result (no process state - such as the working directory - leaks)
+			rel := map[string]string{"OUT": "out", "SRC": "src", "MODE": "release"}
+			dbg := map[string]string{"OUT": "out", "SRC": "src", "MODE": "debug"}
+			sc.Params = rel
+			sc.Entry, sc.RelPaths = "dir", true
+			sc.Insps = []InspSpec{{Name: "insp0", Kind: "log"}, {Name: "gate", Kind: "gate"}}
+			sc.ExpectLog = []string{"insp0", "gate"}
+			sc.History = []map[string]string{rel, dbg, rel, dbg, rel}
+			sc.Reps = 2
 		case "history-whitespace-rule":
 			// a (harmless) rule whose pattern carries surrounding blanks: parsing the rules must not rewrite the caller's layout
 			sc.Params = nil
@@ -1007,6 +1066,20 @@ func genScenario(r *lib.Rng, focus string, idx int) *Scn {
 	case "c09":
 		switch d {
 		case "none":
+		case "step-rule-fails-no-inspection-may-run":
+			// the links are authentic and meet the thresholds, but the first step's product rules forbid what it produced:
+			// verification stops at the step rules, no inspection command is ever started (commands have side effects)
+			sc.Insps = []InspSpec{{Name: "insp0", Kind: "log"}, {Name: "insp1", Kind: "touch", Arg: "made.tmp"}}
+			sc.Expect = "reject"
+			sc.ForbidLog = []string{"insp0", "insp1"}
+		case "symlinked-dir-before-tampered-product", "symlinked-dir-untouched":
+			// the verification directory holds a symbolic link to a directory (not followed by inspections) whose name sorts
+			// before every product; the files after it must still be recorded - a tampered one is seen, untouched ones match
+			sc.Insps = []InspSpec{{Name: "insp0", Kind: "log"}}
+			sc.Entry = "plain"
+			if d == "symlinked-dir-before-tampered-product" {
+				sc.Expect = "reject"
+			}
 		case "insp-fail":
 			sc.Insps = []InspSpec{{Name: "insp0", Kind: "fail", Arg: "1"}}
 			sc.Expect = "reject"
@@ -1151,6 +1224,9 @@ func materialise(sc *Scn, root string, r *lib.Rng) *world {
 	logPath = filepath.Join(root, "insp.log")
 	if sc.Entry == "dir" {
 		w.runDirArg = w.prodDir
+		if sc.RelPaths {
+			w.runDirArg = "final"
+		}
 	}
 	certCtx = nil
 	if sc.CertStep > 0 {
@@ -1221,7 +1297,7 @@ func materialise(sc *Scn, root string, r *lib.Rng) *world {
 		delete(final, "README")
 	case "product-all-removed":
 		final = map[string]string{}
-	case "sha512-chain-product-modified", "escaped-pattern-product-modified", "case-variant-rule-earlier":
+	case "sha512-chain-product-modified", "escaped-pattern-product-modified", "case-variant-rule-earlier", "symlinked-dir-before-tampered-product":
 		final["stamp.txt"] = "EVIL"
 	case "product-crlf-rewritten", "product-crlf-rewritten-normalised":
 		final["src/notes.txt"] = "line one\r\nline two\r\n"
@@ -1243,6 +1319,12 @@ func materialise(sc *Scn, root string, r *lib.Rng) *world {
 		os.MkdirAll(filepath.Dir(fp), 0o755)
 		os.WriteFile(fp, []byte(c), 0o644)
 		os.Chtimes(fp, time.Unix(1577836800, 0), time.Unix(1577836800, 0)) // fixed mtime (as reproducible builds do)
+	}
+	if strings.HasPrefix(sc.Defect, "symlinked-dir-") {
+		target := filepath.Join(root, "assets-target")
+		os.MkdirAll(target, 0o755)
+		os.WriteFile(filepath.Join(target, "logo.png"), []byte("png"), 0o644)
+		must(os.Symlink(target, filepath.Join(w.prodDir, "!assets")))
 	}
 	w.final = final
 	return w
@@ -1426,7 +1508,13 @@ func applyLinkDefects(sc *Scn, w *world, r *lib.Rng) {
 	}
 }
 
-func applySubDefects(sc *Scn, w *world) { applySubDefectKind(sc, w, sc.Defect, false) }
+func applySubDefects(sc *Scn, w *world) {
+	if sc.Defect == "sub-summary-mismatch-other-algorithm" {
+		applySubDefectKind(sc, w, "sub-summary-mismatch", false)
+		return
+	}
+	applySubDefectKind(sc, w, sc.Defect, false)
+}
 
 // applySubDefectKind applies the sublayout-level defect `kind` to the sublayout delivered by SubSigner (second: by SubSigner2)
 func applySubDefectKind(sc *Scn, w *world, kind string, second bool) {
@@ -1472,6 +1560,9 @@ func applySubDefectKind(sc *Scn, w *world, kind string, second bool) {
 					_ = lm2.VerifySignature(fake)
 				}
 			}
+		case "sub-same-step-name-upper-link-missing":
+			// the parent's own link for "pkg" is missing; the sublayout's directory still holds a link of that name by the same key
+			must(os.Remove(filepath.Join(w.linkDir, linkFile("pkg", pk(sc.Steps[1].Signers[0]).Pub.KeyID))))
 		case "sub-badsig":
 			editJSON(file, func(wr, pl map[string]interface{}) { pl["readme"] = "altered after signing" })
 		case "sub-missing-link":
@@ -1485,6 +1576,11 @@ func applySubDefectKind(sc *Scn, w *world, kind string, second bool) {
 			// the sublayout's last step ends somewhere else than the parent expects: change a product digest in all links of the last sub-step
 			ents, _ := os.ReadDir(subDir)
 			last := st.Sub.Steps[len(st.Sub.Steps)-1]
+			if st.Sub.HashAlg != "" {
+				outer := curAlg
+				curAlg = st.Sub.HashAlg
+				defer func() { curAlg = outer }()
+			}
 			for _, e := range ents {
 				if e.IsDir() || !strings.HasPrefix(e.Name(), last.Name+".") {
 					continue
@@ -1499,7 +1595,13 @@ func applySubDefectKind(sc *Scn, w *world, kind string, second bool) {
 					continue
 				}
 				ks := lib.SortedKeys(l.Products)
-				l.Products[ks[len(ks)-1]] = hobj("not what the parent expects")
+				key := ks[len(ks)-1]
+				if st.Sub.HashAlg != "" {
+					// the file the parent's step is expected to CREATE: the step's own rules allow it whatever its content, only
+					// the comparison with what the NEXT item (step or inspection, other algorithm) saw can tell
+					key = fmt.Sprintf("out%d_%d.bin", sc.Level, i)
+				}
+				l.Products[key] = hobj("not what the parent expects")
 				var signer string
 				for _, pn := range last.Signers {
 					if strings.Contains(e.Name(), pk(pn).Pub.KeyID[:8]) {
@@ -1818,6 +1920,19 @@ func runHistory(sc *Scn, w *world) (out string) {
 	must(err)
 	keys := w.verifierKeys
 	os.Chdir(w.prodDir)
+	linkArg := w.linkDir
+	if sc.Entry == "dir" {
+		os.Chdir(w.root) // once, for the whole history
+		if sc.RelPaths {
+			linkArg = "links"
+		}
+	}
+	verify := func(m intoto.Metadata, params map[string]string) (intoto.Metadata, error) {
+		if sc.Entry == "dir" {
+			return intoto.InTotoVerifyWithDirectory(m, keys, linkArg, w.runDirArg, "summary-name", params, nil, false)
+		}
+		return intoto.InTotoVerify(m, keys, linkArg, "summary-name", params, nil, false)
+	}
 	var parts []string
 	flags := ""
 	for _, params := range sc.History {
@@ -1828,7 +1943,7 @@ func runHistory(sc *Scn, w *world) (out string) {
 			cleanInspectionLinks(w)
 			os.Remove(logPath)
 			var o obs
-			sum, err := intoto.InTotoVerify(lm, keys, w.linkDir, "summary-name", params, nil, false)
+			sum, err := verify(lm, params)
 			o.Log = readLog()
 			full := ""
 			if err != nil {
@@ -1858,7 +1973,7 @@ func runHistory(sc *Scn, w *world) (out string) {
 		lm2, err := intoto.LoadMetadata(w.layoutPath)
 		must(err)
 		var o2 obs
-		sum2, err2 := intoto.InTotoVerify(lm2, keys, w.linkDir, "summary-name", params, nil, false)
+		sum2, err2 := verify(lm2, params)
 		o2.Log = readLog()
 		if err2 != nil {
 			o2.Verdict = "reject"
@@ -2157,6 +2272,19 @@ func coqModelAt(sc *Scn, w *world, params map[string]string, nowNs int64) string
 	var collect func(s *Scn)
 	collect = func(s *Scn) {
 		for _, in := range s.Insps {
+			if in.Kind == "gate" {
+				// the table is keyed by the command AFTER substitution with the parameters of this verification
+				c := inspCommand(in)
+				k := "(CFail 1%Z)"
+				if v, ok := params["MODE"]; ok {
+					c[2] = strings.ReplaceAll(c[2], "{MODE}", v)
+					if v == "release" {
+						k = "CLog"
+					}
+				}
+				cmds = append(cmds, lib.CoqPair(lib.CoqStrList(c), k))
+				continue
+			}
 			kind := map[string]string{"log": "CLog", "rewrite": "(CTouch " + lib.CoqStr(in.Arg) + " " + lib.CoqStr(sha("BBBB")) + ")", "touch": "(CTouch " + lib.CoqStr(in.Arg) + " " + lib.CoqStr(sha("x\n")) + ")", "fail": "(CFail " + in.Arg + "%Z)", "missing": "CMissing", "empty": "CLog"}[in.Kind]
 			cmds = append(cmds, lib.CoqPair(lib.CoqStrList(inspCommand(in)), kind))
 		}
@@ -2169,7 +2297,7 @@ func coqModelAt(sc *Scn, w *world, params map[string]string, nowNs int64) string
 	collect(sc)
 	prefix := ""
 	if sc.Entry == "dir" {
-		prefix = w.prodDir
+		prefix = w.runDirArg
 	}
 	return "(e2e_run " + strconv.FormatInt(nowNs, 10) + "%Z " +
 		lib.CoqList(truths, "str * str") + " " + lib.CoqList(tc, "str * key") + " " + lib.CoqList(tcc, "str * str") + " " +
